@@ -11,6 +11,46 @@ P_DIFF_CONCRETE = False   # what is served by a bin vs the parent is conformance
 WRAPS = ["-Wl,--wrap=posix_memalign", "-Wl,--wrap=free", "-Wl,--wrap=malloc", "-Wl,--wrap=calloc", "-Wl,--wrap=realloc"]
 HARNESS = dict(name="sba", flavour="asan", ldflags=WRAPS)
 TIMEOUT = 300
+# hangs (an allocator that dead-locks itself) must not cost more than seconds: harness/sba.c has a per-op wall-clock
+# watchdog (8 s; 20 s for the long ops) and stops running cases after 3 recorded hangs; core's stall detection is the backstop
+_HANG_FILE = os.path.join(cbuild.CACHE, f"c03-hangs-{os.getpid()}")
+C_ENV = {"SBA_HANG_FILE": _HANG_FILE}
+STALL_S = 30
+RERUN_STALL_S = 15
+STAGE_MAX_HUNG = 2
+
+
+def _stage_env(ctx):
+    return {"SBA_WATCHDOG_LONG": "20" if ctx.tier == "quick" else "90"}
+
+
+def _stage_timeout(ctx):
+    return 25 if ctx.tier == "quick" else 120
+
+
+class _Budget:
+    """stage-level budget: after STAGE_MAX_HUNG hung runs the remaining runs of the stage are not started"""
+    def __init__(self):
+        self.hung = 0
+
+    def spent(self):
+        return self.hung >= STAGE_MAX_HUNG
+
+    def note(self, rc, out):
+        if rc in (-998, -999) or "wall-clock watchdog" in out:
+            self.hung += 1
+            return True
+        return False
+
+
+def _clear_hangs():
+    try:
+        os.remove(_HANG_FILE)
+    except OSError:
+        pass
+
+
+_clear_hangs()
 SCHED_HARNESS = dict(name="sba", flavour="asan", extra_cflags=["-DSBA_SCHED"], extra_srcs=[detsched.SRC],
                      ldflags=WRAPS + detsched.LDFLAGS)
 TRUSTED = ["hand model lean/AwsVerif/Model/Sba.lean (tied by this correspondence run only)",
@@ -783,6 +823,11 @@ def oracle(case, lines):
     overlap inside pages, accounting, contents clauses, quiescence, destroy."""
     c = consts()
     PS, HDR, NB = c["PAGE_SIZE"], c["HDR_SIZE"], c["BIN_COUNT"]
+    if lines and lines[0].startswith("P MONITOR not run"):
+        return []          # skipped after earlier hangs of this run: no verdict for this case
+    wd = [l for l in lines if l.startswith("P MONITOR wall-clock watchdog")]
+    if wd:
+        return ["an operation of the allocator never returned (self-deadlock / endless loop): " + wd[0]]
     errs = []
     live = {}      # name -> dict(size, ident, cls)
     li = 0
@@ -999,12 +1044,20 @@ def extra_stages(ctx):
         k, (nt, ops) = args
         seed = ctx.seed * 7919 + k
         text = f"case {k}\nnew mt=1\nstress {nt} {ops} {seed}\ndestroy\n"
-        rc, out, _ = core.run_stream([exe], text, 600)
+        if bud.spent():
+            return nt, ops, seed, None, "", text
+        rc, out, _ = core.run_stream([exe], text, _stage_timeout(ctx), _stage_env(ctx), stall_s=_stage_timeout(ctx))
+        bud.note(rc, out)
         return nt, ops, seed, rc, out, text
 
     from concurrent.futures import ThreadPoolExecutor
+    _clear_hangs()
+    bud = _Budget()
     with ThreadPoolExecutor(4) as ex:
         for nt, ops, seed, rc, out, text in ex.map(one, enumerate(runs)):
+            if rc is None:
+                results.append({"threads": nt, "ops_per_thread": ops, "ok": None, "skipped": "stage budget spent (hung runs)"})
+                continue
             ls = out.splitlines()
             st = [l for l in ls if l.startswith("P stress")]
             ds = [l for l in ls if l.startswith("P destroyed")]
@@ -1013,14 +1066,18 @@ def extra_stages(ctx):
             if not ok:
                 ctx.violation(f"stress-{ctx.seed}-{nt}", {"stress_ops": text.splitlines(), "threads": nt, "observed": out[-2500:],
                                                          "kind": "threaded stress (OS-scheduled, may need repetition to reproduce)"},
-                              "threaded run on a multi-threaded allocator: " + (st[0] if st else f"rc={rc} (crash / sanitizer abort)"))
+                              "threaded run on a multi-threaded allocator: " +
+                              (st[0] if st else ([l for l in ls if "wall-clock watchdog" in l] or [f"rc={rc} (crash / sanitizer abort)"])[0]))
     ctx.cov["threaded_stress_runs_TEST"] = results
     ctx.notes.append("threaded stage is an OS-scheduled stress test (supporting run), not a proof over schedules")
     parent_stage(ctx, exe)
+    _clear_hangs()
     plain_stage(ctx)
     sched_stage(ctx)
     if not quick:
+        _clear_hangs()
         debug_stage(ctx)
+    _clear_hangs()
 
 
 def parent_stage(ctx, exe):
@@ -1028,12 +1085,16 @@ def parent_stage(ctx, exe):
     aws_mem_acquire / calloc (num > 1) / realloc / release on the parent itself, sizes around 512 and 4096, patterns of all
     live blocks after every step, calloc zeros, realloc keeps min(old,new), C-library balance 0 at the end"""
     quick = ctx.tier == "quick"
-    jobs = [(k, ctx.seed * 131 + i) for k in PARENTS for i in range(3 if quick else 40)]
+    jobs = [(k, ctx.seed * 131 + i) for k in PARENTS for i in range(3 if quick else 8)]
+    bud = _Budget()
 
     def one(job):
         kind, seed = job
-        ops = [f"parent {kind} {3000 if quick else 20000} {seed}"]
-        rc, out, _ = core.run_stream([exe], "case 0\n" + "\n".join(ops) + "\n", 300)
+        ops = [f"parent {kind} {3000 if quick else 8000} {seed}"]
+        if bud.spent():
+            return ops, True, None, "not run: stage budget spent"
+        rc, out, _ = core.run_stream([exe], "case 0\n" + "\n".join(ops) + "\n", _stage_timeout(ctx), _stage_env(ctx), stall_s=_stage_timeout(ctx))
+        bud.note(rc, out)
         ls = out.splitlines()
         mon = [l for l in ls if l.startswith("P MONITOR")]
         ok = rc == 0 and f"P parent kind={kind} ok=1" in ls
@@ -1061,7 +1122,7 @@ def plain_stage(ctx):
         return
     history_runs(ctx, exe)
     cases = core.load_corpus(ID) + fullpage_cases(ctx.rng, "quick")
-    c_out, _, crashes = core.run_both(ctx, cases, exe, None, timeout=TIMEOUT)
+    c_out, _, crashes = core.run_both(ctx, cases, exe, None, timeout=TIMEOUT, c_env=C_ENV, stall_s=STALL_S)
     ctx.cov["plain_build_cases"] = len(cases)
     for i, c in enumerate(cases):
         errs = oracle(c, c_out.get(i, []))
@@ -1082,7 +1143,7 @@ def debug_stage(ctx):
         ctx.machinery_broken("build (debug flavour): " + str(e)[:2000])
         return
     cases = core.load_corpus(ID) + [case_drain(ctx.rng) for _ in range(300)] + [case_random(ctx.rng, 60) for _ in range(300)]
-    c_out, _, crashes = core.run_both(ctx, cases, exe, None, timeout=TIMEOUT)
+    c_out, _, crashes = core.run_both(ctx, cases, exe, None, timeout=TIMEOUT, c_env=C_ENV, stall_s=STALL_S)
     ctx.cov["debug_build_cases"] = len(cases)
     for i, c in enumerate(cases):
         errs = ["crash: " + crashes[i][-600:]] if i in crashes else oracle(c, c_out.get(i, []))
@@ -1106,8 +1167,13 @@ def history_runs(ctx, exe):
         phase = (3000, 3250, 3500, 3750, 4000)[k % 5]
         jobs.append(["new mt=0 malloc", f"history {4 * phase} {base + k} 4000 {phase}", "destroy"])
 
+    bud = _Budget()
+
     def one(ops):
-        rc, out, _ = core.run_stream([exe], "case 0\n" + "\n".join(ops) + "\n", 300)
+        if bud.spent():
+            return ops, True, None, "not run: stage budget spent"
+        rc, out, _ = core.run_stream([exe], "case 0\n" + "\n".join(ops) + "\n", _stage_timeout(ctx), _stage_env(ctx), stall_s=_stage_timeout(ctx))
+        bud.note(rc, out)
         ls = out.splitlines()
         h = [l for l in ls if l.startswith("P history")]
         mon = [l for l in ls if l.startswith("P MONITOR")]
@@ -1172,8 +1238,13 @@ def sched_stage(ctx):
             ops.append(f"run seed {ctx.seed * 1000 + k}")
         if not quick:
             ops += [f"explore 2 200000 {ctx.seed * 77 + k}" for k in range(1, 6)]
-        rc, out, _ = core.run_stream([exe], "\n".join(ops) + "\n", 600)
+        if bud.spent():
+            return cls, sc, head, 0, False, None, "not run: the stage already has its failing schedules", None
+        tmo = 60 if quick else 600
+        rc, out, _ = core.run_stream([exe], "\n".join(ops) + "\n", tmo, _stage_env(ctx), stall_s=_stage_timeout(ctx))
         ls = out.splitlines()
+        if rc != 0 or any(l.startswith("P MONITOR") for l in ls):
+            bud.hung += 1          # a deadlock / failing schedule / watchdog: two of them end the stage
         runs = sum(int(l.split("runs=")[1].split()[0]) for l in ls if l.startswith("P explore")) + sum(1 for l in ls if l.startswith("P sched seed"))
         mon = [l for l in ls if l.startswith("P MONITOR")]
         sch = [l for l in ls if l.startswith("W schedule ")]
@@ -1181,6 +1252,7 @@ def sched_stage(ctx):
         return cls, sc, head, runs, bad, rc, (mon[0] if mon else out[-400:]), (sch[0].split(" ", 2)[2] if sch else None)
     from concurrent.futures import ThreadPoolExecutor
     total, reported = 0, 0
+    bud = _Budget()
     with ThreadPoolExecutor(8) as ex:
         for cls, sc, head, runs, bad, rc, msg, sched in ex.map(one, jobs):
             total += runs
